@@ -21,9 +21,14 @@ type srcReader struct {
 	frag    string
 	rnd     *rand.Rand
 	halving int
+	mode    string // "" sticky: every read at/after fail errors; "once": one error, then the data continues; "theneof": one error, then io.EOF
+	fired   bool
 }
 
 func (r *srcReader) limit() int {
+	if r.fired && r.mode == "once" {
+		return len(r.data)
+	}
 	if r.fail >= 0 && r.fail < len(r.data) {
 		return r.fail
 	}
@@ -34,9 +39,13 @@ func (r *srcReader) Read(p []byte) (int, error) {
 	if len(p) == 0 {
 		return 0, nil
 	}
+	if r.fired && r.mode == "theneof" {
+		return 0, io.EOF
+	}
 	lim := r.limit()
 	if r.pos >= lim {
-		if r.fail >= 0 && r.fail <= len(r.data) && r.pos >= r.fail {
+		if r.fail >= 0 && r.fail <= len(r.data) && r.pos >= r.fail && !(r.fired && r.mode == "once") {
+			r.fired = true
 			return 0, errInjected
 		}
 		return 0, io.EOF
@@ -97,7 +106,7 @@ func makeSource(m map[string]string, data []byte) io.Reader {
 		}
 		return struct{ io.Reader }{bytes.NewReader(data)}
 	}
-	sr := &srcReader{data: data, fail: fail, frag: frag, rnd: rand.New(rand.NewSource(int64(len(data))*31 + 7))}
+	sr := &srcReader{data: data, fail: fail, frag: frag, mode: def(m, "failmode", ""), rnd: rand.New(rand.NewSource(int64(len(data))*31 + 7))}
 	if seek {
 		return srcSeeker{sr}
 	}
